@@ -163,6 +163,108 @@ pub fn first_diff(got: &str, want: &str) -> String {
 	format!("…{g}… (want …{w}…) at dump offset {i}")
 }
 
+
+/// CLI stage: the same fidelity through the shipped binary when several files in different formats are
+/// given to one invocation (formats resolved by extension, as a user would write it). Every ordered pair
+/// and a set of triples of source formats x streaming targets; the output stream is read by the
+/// independent reader and must be exactly the list of values, in order.
+fn cli_stage(tally: &mut Tally, docs: &[Doc]) {
+	use crate::proc::{self, Exit, Spawn, WorkDir};
+	proc::assert_bins();
+	let w = WorkDir::new("c01-cli");
+	// a few small map-rooted documents of different families (every source format can spell them)
+	let mut picks: Vec<&Doc> = vec![];
+	for fam in ["tree", "ints", "strings", "floats", "depth", "string-keys"] {
+		let mut n = 0;
+		for d in docs.iter().filter(|d| d.family == fam && matches!(d.v, V::Map(_)) && d.v.dump().len() < 4000) {
+			if F::ALL.iter().all(|&f| representable(&d.v, f) && spell_doc(f, &d.v, Style(0)).is_some()) {
+				picks.push(d);
+				n += 1;
+				if n == 2 {
+					break;
+				}
+			}
+		}
+	}
+	if picks.len() < 4 {
+		return;
+	}
+	let ext = |f: F| f.name();
+	// files: d<i>.<style>.<ext>
+	let mut names: Vec<Vec<Vec<String>>> = vec![]; // [doc][format] -> names per style
+	for (i, d) in picks.iter().enumerate() {
+		let mut per_f = vec![];
+		for f in F::ALL {
+			let mut v = vec![];
+			for st in [0, style_count(f) - 1] {
+				if let Some(bytes) = spell_doc(f, &d.v, Style(st)) {
+					let name = format!("d{i}.s{st}.{}", ext(f));
+					w.write(&name, &bytes);
+					v.push(name);
+				}
+			}
+			v.dedup();
+			per_f.push(v);
+		}
+		names.push(per_f);
+	}
+	let fi = |f: F| F::ALL.iter().position(|&x| x == f).unwrap();
+	struct Job {
+		argv: Vec<String>,
+		docs: Vec<usize>,
+		to: F,
+	}
+	let mut jobs = vec![];
+	let n = picks.len();
+	for to in [F::Json, F::Msgpack, F::Yaml] {
+		for (k, a) in F::ALL.iter().enumerate() {
+			for (l, b) in F::ALL.iter().enumerate() {
+				for i in 0..n {
+					let j = (i + 1 + k + l) % n;
+					let na = &names[i][fi(*a)];
+					let nb = &names[j][fi(*b)];
+					jobs.push(Job { argv: vec![format!("-t{}", to.letter()), na[i % na.len()].clone(), nb[j % nb.len()].clone()], docs: vec![i, j], to });
+				}
+				for c in F::ALL {
+					let (i, j, m) = (k % n, (k + l + 1) % n, (l + 2) % n);
+					jobs.push(Job { argv: vec![format!("-t{}", to.letter()), names[i][fi(*a)][0].clone(), names[j][fi(*b)][0].clone(), names[m][fi(c)][0].clone()], docs: vec![i, j, m], to });
+				}
+			}
+		}
+	}
+	let dir = w.path().to_path_buf();
+	let results = par_fold(&jobs, Tally::default, |t, _, job| {
+		let args: Vec<&str> = job.argv.iter().map(|s| s.as_str()).collect();
+		let o = proc::run(&Spawn::new(&dir, &args));
+		t.evaluations += 1;
+		t.count("cli-multi-file-invocations");
+		t.nontrivial(fnv(&[job.argv.join(" ").as_bytes()]));
+		let want: Vec<V> = job.docs.iter().map(|&i| picks[i].v.clone()).collect();
+		let files: Vec<Value> = job.argv[1..].iter().map(|nm| json!({"name": nm, "hex": crate::util::hex(&std::fs::read(dir.join(nm)).unwrap_or_default())})).collect();
+		let case = json!({"kind": "cli-files", "argv": job.argv, "files": files, "to": job.to.name(), "expected": want.iter().map(|v| v.dump()).collect::<Vec<_>>()});
+		if let Some((class, msg)) = judge_cli_files(&o, job.to, &want) {
+			// the class names the source format of the file the differing document came from, like the
+			// library stages do (so that one defect is one class whichever stage sees it)
+			let src = msg.split("at doc").nth(1).and_then(|r| r.chars().take_while(|c| c.is_ascii_digit()).collect::<String>().parse::<usize>().ok()).and_then(|k| job.argv.get(1 + k)).and_then(|nm| nm.rsplit('.').next()).unwrap_or("cli").to_string();
+			t.bad(format!("{class}:{src}->{}", job.to.name()), case, format!("xt {:?}: {msg}", job.argv));
+		}
+		let _ = Exit::Code(0);
+	});
+	for r in results {
+		tally.merge(r);
+	}
+}
+
+fn judge_cli_files(o: &crate::proc::ProcOut, to: F, want: &[V]) -> Option<(String, String)> {
+	if o.exit != crate::proc::Exit::Code(0) {
+		return Some(("translation-failed".into(), o.brief()));
+	}
+	match read_output_values(to, &o.stdout) {
+		Err(e) => Some(("unreadable-output".into(), format!("output {} unreadable: {e}", show(&o.stdout)))),
+		Ok(d) => diff_classes(&d, want).into_iter().next().map(|(c, m)| (c, format!("output {}: {m}", show(&o.stdout)))),
+	}
+}
+
 pub fn run(ctx: &Ctx) -> CheckOutput {
 	let thorough = ctx.thorough();
 	let mut docs = documents(thorough);
@@ -240,6 +342,9 @@ pub fn run(ctx: &Ctx) -> CheckOutput {
 		tally.merge(a.t);
 		toml.merge(a.toml);
 	}
+	if std::env::var("XTMC_C01_FAMILY").is_err() {
+		cli_stage(&mut tally, &docs);
+	}
 	eprintln!("[c01] translations done at {:.1}s, {} TOML outputs to read", ctx.start.elapsed().as_secs_f64(), toml.items.len());
 	let (n, bad) = toml.run("c01");
 	eprintln!("[c01] TOML oracle done at {:.1}s", ctx.start.elapsed().as_secs_f64());
@@ -261,7 +366,7 @@ pub fn run(ctx: &Ctx) -> CheckOutput {
 		}
 	}
 	let req = |k: &str| (k.to_string(), *tally.counters.get(k).unwrap_or(&0));
-	let mut required = vec![req("detected-as-intended"), req("toml-outputs-read-by-tomllib")];
+	let mut required = vec![req("detected-as-intended"), req("toml-outputs-read-by-tomllib"), req("cli-multi-file-invocations")];
 	for s in F::ALL {
 		for t in F::ALL {
 			required.push(req(&format!("pair:{}->{}", s.name(), t.name())));
@@ -270,7 +375,7 @@ pub fn run(ctx: &Ctx) -> CheckOutput {
 	CheckOutput {
 		level: "exploration",
 		tally,
-		rule: format!("documents: every ordered tree with <= {} nodes over 6 structural scalars and 9 keys; integer family (all +-2^j, +-2^j+-1 in [-2^63, 2^64-1]); float family ({} exponents x 20 mantissa patterns x sign, edge values, {} fixed scrambled doubles), NaN/inf where the pair has them; string family (type/structure look-alikes, blanks, quotes, every C0/C1 control) as values and keys; EVERY Unicode scalar value (64 per string) as values and keys; depth chains to 64. Each document is spelled in every style of every source format, translated to all 4 targets from slice / reader(all) / reader(1 byte) with the source named and, when detection picks that source, detected; the output is read by the harness's own reader of the target (JSON, MessagePack: hand-written; YAML: libyaml events + own core-schema resolver; TOML: Python tomllib) and must equal the expected value (TOML: after the stable non-table-first partition). Non-trivial/distinct = (input bytes, target).",
+		rule: format!("documents: every ordered tree with <= {} nodes over 6 structural scalars and 9 keys; integer family (all +-2^j, +-2^j+-1 in [-2^63, 2^64-1]); float family ({} exponents x 20 mantissa patterns x sign, edge values, {} fixed scrambled doubles), NaN/inf where the pair has them; string family (type/structure look-alikes, blanks, quotes, every C0/C1 control) as values and keys; EVERY Unicode scalar value (64 per string) as values and keys; depth chains to 64. Each document is spelled in every style of every source format, translated to all 4 targets from slice / reader(all) / reader(1 byte) with the source named and, when detection picks that source, detected; the output is read by the harness's own reader of the target (JSON, MessagePack: hand-written; YAML: libyaml events + own core-schema resolver; TOML: Python tomllib) and must equal the expected value (TOML: after the stable non-table-first partition). CLI stage: 12 small map-rooted documents written as files in every source format, every ordered pair and 64 triples of source formats given to ONE invocation of the binary (formats by extension) for the 3 streaming targets; the output stream must read back as exactly those values in order. Non-trivial/distinct = (input bytes, target).",
 			if thorough { 5 } else { 4 }, if thorough { 2047 } else { 128 }, if thorough { 200_000 } else { 6_000 }),
 		exhaustive: true,
 		bounds: json!({"tree_nodes": if thorough { 5 } else { 4 }, "depth": 64}),
@@ -284,5 +389,18 @@ pub fn run(ctx: &Ctx) -> CheckOutput {
 }
 
 pub fn replay(case: &Value) -> Option<String> {
+	if case["kind"] == "cli-files" {
+		crate::proc::assert_bins();
+		let w = crate::proc::WorkDir::new("c01-replay");
+		for f in case["files"].as_array().unwrap() {
+			w.write(f["name"].as_str().unwrap(), &crate::util::unhex(f["hex"].as_str().unwrap()));
+		}
+		let argv: Vec<String> = case["argv"].as_array().unwrap().iter().map(|a| a.as_str().unwrap().to_string()).collect();
+		let args: Vec<&str> = argv.iter().map(|s| s.as_str()).collect();
+		let o = crate::proc::run(&crate::proc::Spawn::new(w.path(), &args));
+		let to = F::parse(case["to"].as_str().unwrap()).unwrap();
+		let want: Vec<V> = case["expected"].as_array().unwrap().iter().map(|d| crate::model::parse_dump(d.as_str().unwrap()).unwrap()).collect();
+		return judge_cli_files(&o, to, &want).map(|(c, m)| format!("{c}: {m}"));
+	}
 	replay_model(case)
 }
